@@ -330,7 +330,7 @@ Definition step (s : sys) (e : event) : sys :=
       end
   end.
 
-Definition run (s : sys) (es : list event) : sys := fold_left step es s.
+Definition run_events (s : sys) (es : list event) : sys := fold_left step es s.
 
 Definition idle (s : sys) : bool := match ready (ev s) with [] => true | _ => false end.
 
